@@ -31,27 +31,29 @@ Definition hid_of (p : pc) : Z :=
   match p with PDrainTail => H_TAIL | PDrainNext _ => H_NEXT | PSemLoad => H_SVAL | PCreate _ _ => H_CREATE | _ => 0 end.
 Definition null_ev := mkEv 0 0 0 0 0 0 0 0.
 
-(* tr: (key, event) with key = 2 * stamp; cr: the threads this thread's pthread_create calls start, in order.
+(* tr: (key, event, (word, label of the write)) with key = 2 * stamp; cr: the threads this thread's pthread_create calls start, in order.
    Result: (key, action) in program order; stops at the first event RootQ.tstep_vis rejects *)
-Fixpoint abstract (oc : bool) (t : Z) (p : pc) (cr : list Z) (prevk : Z) (i : Z) (tr : list (Z * event))
+Fixpoint abstract (oc : bool) (t : Z) (p : pc) (cr : list Z) (prevk : Z) (i : Z) (tr : list (Z * event * (Z * Z)))
     (acc : list (Z * ract)) : list (Z * ract) :=
   match tr with
   | [] =>
       match p, cr with
       | PCreate _ _, u :: _ =>
-          rev ((prevk + 1, {| r_tid := t; r_code := H_CREATE; r_arg := u; r_ev := null_ev; r_look := false; r_next := null_ev; r_id := i; r_obs := false |}) :: acc)
+          rev ((prevk + 1, {| r_tid := t; r_code := H_CREATE; r_arg := u; r_ev := null_ev; r_look := false; r_next := null_ev; r_id := i; r_obs := false;
+                            r_word := 0; r_widx := 0 |}) :: acc)
       | _, _ => rev acc
       end
-  | (k, e) :: r =>
+  | (k, e, (wd, wi)) :: r =>
       match tstep_vis oc p e with
       | None => rev acc
       | Some p' =>
           let h := hid_of p in
-          let ev := {| r_tid := t; r_code := 0; r_arg := 0; r_ev := e; r_look := false; r_next := null_ev; r_id := i; r_obs := ev_obs e |} in
+          let ev := {| r_tid := t; r_code := 0; r_arg := 0; r_ev := e; r_look := false; r_next := null_ev; r_id := i; r_obs := ev_obs e;
+                     r_word := wd; r_widx := wi |} in
           if h =? 0 then abstract oc t p' cr k (i + 1) r ((k, ev) :: acc)
           else
             let hid := {| r_tid := t; r_code := h; r_arg := if h =? H_CREATE then hd (-1) cr else 0; r_ev := null_ev;
-                          r_look := true; r_next := e; r_id := i; r_obs := negb (h =? H_CREATE) |} in
+                          r_look := true; r_next := e; r_id := i; r_obs := negb (h =? H_CREATE); r_word := 0; r_widx := 0 |} in
             abstract oc t p' (if h =? H_CREATE then tl cr else cr) k (i + 1) r ((k, ev) :: (prevk + 1, hid) :: acc)
       end
   end.
@@ -136,15 +138,19 @@ Fixpoint bits (l : list bool) (w : Z) : Z :=
 Definition inv_code (s : gst) : Z := bits (inv_clauses s) 1.
 
 (* ------------------------------------------------------------------ the replay *)
+(* one action on a state: what the scheduler does (used by the untrusted order search of the driver) *)
+Definition rq_try (oc : bool) (s : gst) (a : ract) : option gst := try_act (gstep oc) rq_hidden (rq_accepts oc) rq_valid s a.
+
 (* the next action (thread, event index, hidden kind) of the first n distinct threads of what is left: diagnostics *)
 Fixpoint firsts (l : list ract) (seenl : list Z) (n : nat) : list Z :=
   match l, n with
   | [], _ | _, O => []
   | a :: r, S n' => if existsb (Z.eqb (r_tid a)) seenl then firsts r seenl n else r_tid a :: r_id a :: r_code a :: firsts r (r_tid a :: seenl) n'
   end.
-Definition depths (n : nat) : list nat := [24%nat; 96%nat; 384%nat; 1536%nat; n].
-Definition replay (oc : bool) (p0 : Z) (w : nat) (ord : list ract) : list Z :=
-  let '(s, done, rest) := sched (gstep oc) rq_hidden (rq_accepts oc) rq_valid (S (length ord)) w (depths (length ord)) (init_state p0) ord 0 in
+(* w = 1: strict mode, the given order is executed as it is (the driver found it); otherwise the scheduler may look ahead *)
+Definition depths (w n : nat) : list nat := match w with 1%nat => [1%nat] | _ => [12%nat; 48%nat; 192%nat; 768%nat; n] end.
+Definition replay (oc : bool) (p0 : Z) (w : nat) (chains : list (Z * list Z)) (ord : list ract) : list Z :=
+  let '(s, done, rest) := sched (gstep oc) rq_hidden (rq_accepts oc) rq_valid (S (length ord)) w (depths w (length ord)) chains (init_state p0) ord 0 in
   [ done; Z.of_nat (length rest);
     match rest with a :: _ => r_tid a | [] => -1 end; match rest with a :: _ => r_id a | [] => -1 end;
     match rest with a :: _ => r_code a | [] => -1 end;
